@@ -140,6 +140,8 @@ def tdvp_(psi, H,
         raise YastnError('TDVP: tdvp method %s not recognized' % method)
 
     env = None
+    if not psi.is_canonical(to='first'):  # as documented: the initial state is first canonized to the first site
+        psi.canonize_(to='first', normalize=normalize)
     if yield_initial:
         yield TDVP_out(times[0], times[0], time_independent, dt, 0)
     # perform time-steps
